@@ -8,5 +8,6 @@ func init() {
 		{"half-open overlap test", "vecengine/index.go", `MinSeq\(a\) <= myVecs\.before\.Seq\(b\)`, "MinSeq(a) < myVecs.before.Seq(b)", "C06.detect"},
 		{"per-branch vector returned although forks exist", "vecengine/index.go", `if vi\.AtLeastOneFork\(\) \{\n\t\tscatteredBefore`, "if !vi.AtLeastOneFork() {\n\t\tscatteredBefore", "C06.merge"},
 		{"flushed branch table kept by reference", "vecengine/index.go", `func \(vi \*Engine\) Flush\(\) \{\n\tif vi\.bi != nil \{\n\t\tvi\.setBranchesInfo\(vi\.bi\)\n`, "var lastFlushedBranches *BranchesInfo\n\nfunc (vi *Engine) Flush() {\n\tif vi.bi != nil {\n\t\tvi.setBranchesInfo(vi.bi)\n\t\tlastFlushedBranches = vi.bi\n", "no other retained object keeps storage of the live branch table"},
+		{"branch table stored only once a fork exists", "vecengine/index.go", `\tif vi\.bi != nil \{\n\t\tvi\.setBranchesInfo\(vi\.bi\)\n\t\}\n\tif err := vi\.vecDb\.Flush`, "\tif vi.bi != nil && len(vi.bi.BranchIDCreatorIdxs) > int(vi.validators.Len()) {\n\t\tvi.setBranchesInfo(vi.bi)\n\t}\n\tif err := vi.vecDb.Flush", "changes of the branch table are stored by Flush"},
 	}
 }
